@@ -844,3 +844,26 @@ func AddState(f func(h uint64) uint64) {
 
 // MixString folds s into the hash h (for AddState callbacks).
 func MixString(h uint64, s string) uint64 { return mixs(h, s) }
+
+// ---------------------------------------------------------------------------------
+// Pool stands in for sync.Pool: a deterministic LIFO free list without scheduling points of
+// its own (Get and Put of the real pool never block). Unlike the real pool it never drops
+// items, so every reuse the code under test makes possible does happen.
+type Pool struct {
+	New   func() any
+	items []any
+}
+
+func (p *Pool) Get() any {
+	if n := len(p.items); n > 0 {
+		x := p.items[n-1]
+		p.items = p.items[:n-1]
+		return x
+	}
+	if p.New != nil {
+		return p.New()
+	}
+	return nil
+}
+
+func (p *Pool) Put(x any) { p.items = append(p.items, x) }
